@@ -400,6 +400,12 @@ def check_dg(sc):
         for order in ("asc", "desc"):
             H = build_digraph(n, sc["adj"], lab, order)
             var = {"labels": lab, "order": order}
+            if lab == "tuple":
+                # a user-built percolated network whose arcs carry data of their own under networkx's default
+                # attribute name (log-probabilities, None for "unknown"): reachability does not depend on it
+                for k_, (a_, b_) in enumerate(list(H.edges())):
+                    H[a_][b_]["weight"] = None if k_ % 2 == 0 else -0.5 * (k_ + 1)
+                var["arc_data_named_weight"] = True
             out.evals += 1
             try:
                 res = EoN.estimate_SIR_prob_size_from_dir_perc(H)
@@ -443,6 +449,14 @@ def check_bond(group):
         inv = {L(u): u for u in range(1, n + 1)}
         G = build_graph(n, g, lab, order)
         var = {"labels": lab, "order": order, "p": [num, den]}
+        if lab == "str":
+            # a history: the same Graph object was percolated before while it had another structure (same numbers of
+            # nodes and edges) and was then edited in place into this scenario's graph
+            from .common import prime_same_object
+            import random as _r
+            _r.seed(5)
+            if prime_same_object(G, lambda g_: (EoN.percolate_network(g_, p), EoN.estimate_SIR_prob_size(g_, p))):
+                var["graph_object_used_before_with_another_structure"] = True
         # --- percolate_network -------------------------------------------------
         entry = "percolate_network"
         leaves = scripted.explore(lambda: EoN.percolate_network(G, p), max_leaves=4096, max_branches=64)
